@@ -40,8 +40,11 @@ int ep4_cmp(const ep4_t p, const ep4_t q) {
 	ep4_t r, s;
 	int result = RLC_NE;
 
-	if (ep4_is_infty(p) && ep4_is_infty(q)) {
-		return RLC_EQ;
+	if (ep4_is_infty(p) || ep4_is_infty(q)) {
+		/* The cross-multiplication below cannot tell the point at infinity
+		 * (stored with x = y = 0) from the affine point (0, 0), which lies on
+		 * every curve with b = 0. */
+		return (ep4_is_infty(p) && ep4_is_infty(q)) ? RLC_EQ : RLC_NE;
 	}
 
 	ep4_null(r);
